@@ -52,6 +52,11 @@ func (c *Ctx) specEnv(fr *Frame, cur, old *State, hdr *ssa.BasicBlock) *SpecEnv 
 			env.vars[fmt.Sprintf("param%d", i)] = fr.params[i] // positional name (robust to renaming)
 		}
 	}
+	for old, i := range c.eng.paramAliases(fr.fn) {
+		if _, taken := env.vars[old]; !taken && i < len(fr.params) {
+			env.vars[old] = fr.params[i] // the name this parameter had in the reference tree
+		}
+	}
 	for _, fv := range fr.fn.FreeVars {
 		if v, ok := fr.vals[fv]; ok {
 			env.vars[fv.Name()] = v
@@ -304,6 +309,18 @@ func (env *SpecEnv) objVal(obj types.Object) (Val, bool) {
 
 // lookupLocal resolves a source-level local variable name at a loop header.
 func (c *Ctx) lookupLocal(env *SpecEnv, name string) (Val, bool) {
+	if v, ok := c.lookupLocal0(env, name); ok {
+		return v, true
+	}
+	if env.fr != nil && env.fr.fn != nil {
+		if nw := c.eng.localAlias(env.fr.fn, name); nw != "" {
+			return c.lookupLocal0(env, nw)
+		}
+	}
+	return Val{}, false
+}
+
+func (c *Ctx) lookupLocal0(env *SpecEnv, name string) (Val, bool) {
 	fr, hdr := env.fr, env.hdr
 	limit := 0
 	if hdr == nil {
@@ -1123,7 +1140,7 @@ func (c *Ctx) specInline(env *SpecEnv, fn *ssa.Function, recv *Val, argExprs []a
 		return sem
 	}
 	key := fnKey(fn)
-	if ct := c.eng.contracts[key]; ct != nil && !ct.Inline && ct.Pure {
+	if ct := c.eng.contractOf(fn); ct != nil && !ct.Inline && ct.Pure {
 		// pure function under contract used in a spec: uninterpreted result + ensures
 		st := env.cur.clone()
 		fr := c.newFrame(fn, 1)
